@@ -7,11 +7,47 @@ import (
 	"verifharness/sym"
 
 	"github.com/blinklabs-io/gouroboros/cbor"
+	"github.com/blinklabs-io/gouroboros/ledger/alonzo"
 	"github.com/blinklabs-io/gouroboros/ledger/common"
 	"github.com/blinklabs-io/gouroboros/ledger/conway"
 )
 
+// RedeemerWire: what the data-hash rule calls "the original redeemer bytes" is what the
+// Conway redeemer decoder stored: for the map form and for the legacy array form (empty
+// containers here, definite or indefinite), a decoded redeemer set hands back exactly its wire
+// bytes.
+func RedeemerWire() {
+	shape := sym.U8("shape") // 0 empty map, 1 empty array, 2 empty indefinite array, 3 empty indefinite map
+	sym.Assume(shape <= 3)
+	var data []byte
+	switch {
+	case shape == 0:
+		data = []byte{0xa0}
+	case shape == 1:
+		data = []byte{0x80}
+	case shape == 2:
+		data = []byte{0x9f, 0xff}
+	default:
+		data = []byte{0xbf, 0xff}
+	}
+	if sym.Symbolic() {
+		// what the library decodes these bytes to
+		if shape == 0 || shape == 3 {
+			m := map[common.RedeemerKey]common.RedeemerValue{}
+			cbor.VerifDepositFor(data, &m)
+		} else {
+			cbor.VerifDepositFor(data, &alonzo.AlonzoRedeemers{})
+		}
+	}
+	var r conway.ConwayRedeemers
+	err := r.UnmarshalCBOR(data)
+	sym.Reach("decoded")
+	sym.Assert(err == nil, "an empty redeemer set decodes in either form")
+	sym.Assert(bytes.Equal(r.Cbor(), data), "a decoded redeemer set keeps its original bytes, in the map form and in the legacy array form")
+}
+
 var Registry = map[string]func(){
+	"RedeemerWire":  RedeemerWire,
 	"LangViewsInts": LangViewsInts,
 	"ShortLex":      ShortLex,
 	"LangViews":     LangViews,
